@@ -625,15 +625,21 @@ def byzantine(plugin, f, good, start, end, name, as_chunk=False):
     tgt = f.get("output") or (list(good)[0] if multi else name)
 
     def bad_one(arr, nm):
+        variant = f.get("variant")
         if kind == "wrong_dtype_bare":
+            if variant == "empty":
+                # no rows at all, of another dtype (np.array([]) is the classic): the rows of this chunk vanish
+                return np.zeros(0, dtype=np.float64) if len(arr) % 2 else \
+                    np.zeros(0, dtype=[("time", np.int64), ("endtime", np.int64), ("oops", np.float32)])
             return np.zeros(len(arr) or 1, dtype=[("time", np.int64), ("endtime", np.int64),
                                                   ("oops", np.float32)])
         if kind == "wrong_dtype_chunk":
             w = np.zeros(len(arr), dtype=[("time", np.int64), ("endtime", np.int64), ("oops", np.float32)])
             w["time"], w["endtime"] = arr["time"], arr["endtime"]
+            # 'consistent': a chunk built by hand that is consistent in itself (declares the foreign dtype)
             return strax.Chunk(start=start, end=end, data=w, data_type=nm, data_kind=plugin.data_kind_for(nm),
-                               dtype=plugin.dtype_for(nm), run_id=plugin._run_id,
-                               target_size_mb=plugin.chunk_target_size_mb)
+                               dtype=w.dtype if variant == "consistent" else plugin.dtype_for(nm),
+                               run_id=plugin._run_id, target_size_mb=plugin.chunk_target_size_mb)
         if kind == "rows_outside":
             w = arr.copy() if len(arr) else make_rows(nm, [start], [start + 1], [0])
             # which row sticks out: rows are sorted by start time only, so it need not be the last one
@@ -644,6 +650,8 @@ def byzantine(plugin, f, good, start, end, name, as_chunk=False):
             return w
         if kind == "wrong_data_type":
             other = "zz_other"
+            if variant == "sibling" and multi:
+                other = [k for k in good if k != nm][0]       # the label of another output of the same plugin
             c = plugin.chunk(start=start, end=end, data=arr, data_type=nm)
             c.data_type = other
             return c
